@@ -280,24 +280,8 @@ def run(chk, repo):
     chk.ob('C05.d', 'apply_variant removes nothing', av.where, not rm, f"remove calls {rm}", key=av.qual + '::no-remove', fn=av.qual)
 
     # ------------------------------------------------------------------ e
-    chk.rule('C05.e', 'adding a GVF file only appends pointers (never replaces pointer lists)', 2)
-    for q in ('seqvar.VariantRecordPoolOnDisk:VariantRecordPoolOnDisk.load_index', 'seqvar.VariantRecordPoolOnDisk:VariantRecordPoolOnDisk.generate_index'):
-        g = repo.func(q)
-        chk.uses(g)
-        ws = [w for w in G.writes_in(g.node.body) if 'self.pointers' in unparse(w[2])]
-        okw = True
-        for w in ws:
-            t = norm_stmt(w[2]) if isinstance(w[2], ast.stmt) else unparse(w[2])
-            if t == 'self.pointers[pointer.key].append(pointer)' or t == 'self.pointers.setdefault(pointer.key, []).append(pointer)':
-                continue
-            if t == 'self.pointers[pointer.key] = [pointer]':
-                fx_if = [a for a in repo.ancestors(w[2]) if isinstance(a, ast.If) and unparse(a.test) == 'pointer.key in self.pointers']
-                if fx_if and w[2] in fx_if[0].orelse:
-                    continue
-            okw = False
-        chk.ob('C05.e', f"{g.name}: pointer lists are only appended to", g.where, okw and bool(ws),
-               f"writes to self.pointers: {[unparse(w[2])[:60] for w in ws]}: pointers of transcripts known from earlier GVFs can be replaced "
-               "(adding a file removes variants)", key=q + '::append-only', fn=g.qual)
+    from rules.shared import pointers_append_only
+    pointers_append_only(chk, repo, 'C05.e')
 
     # ------------------------------------------------------------------ f (shared with C06.a)
     from rules.C06 import rule_drain
